@@ -60,7 +60,7 @@ Section AssocLemmas.
     - apply Z.eqb_neq in E. apply lookup_upd_ne. exact E.
   Qed.
   Lemma has_upd l k v k' : has (upd k v l) k' = (k' =? k) || has l k'.
-  Proof. unfold has at 1 3. rewrite lookup_upd. destruct (k' =? k); reflexivity. Qed.
+  Proof. unfold has. rewrite lookup_upd. destruct (k' =? k); reflexivity. Qed.
 
   Lemma lookup_del l k k' : lookup (del k l) k' = if k' =? k then None else lookup l k'.
   Proof.
@@ -72,7 +72,7 @@ Section AssocLemmas.
         apply Z.eqb_eq in E'. subst j. rewrite Z.eqb_sym in Ekj. rewrite Ekj. reflexivity.
   Qed.
   Lemma has_del l k k' : has (del k l) k' = negb (k' =? k) && has l k'.
-  Proof. unfold has at 1 2. rewrite lookup_del. destruct (k' =? k); reflexivity. Qed.
+  Proof. unfold has. rewrite lookup_del. destruct (k' =? k); reflexivity. Qed.
 
   Lemma keys_repl l k v : keys (map (fun e => if k =? fst e then (fst e, v) else e) l) = keys l.
   Proof.
@@ -126,7 +126,12 @@ Section AssocLemmas.
   Lemma nodup_upd l k v : NoDup (keys l) -> NoDup (keys (upd k v l)).
   Proof.
     intro H. rewrite keys_upd. destruct (has l k) eqn:E; [exact H|].
-    apply has_false in E. apply NoDup_app_intro_single; [exact H|].
-    intro Hin. apply lookup_in_keys in Hin. congruence.
+    apply has_false in E.
+    assert (Hnin : ~ In k (keys l)) by (intro Hin; apply lookup_in_keys in Hin; congruence).
+    clear E. induction (keys l) as [|j r IH]; cbn [app].
+    - constructor; [intros []|constructor].
+    - inversion H as [|? ? Hj Hr]; subst. cbn [In] in Hnin. constructor.
+      + rewrite in_app_iff. cbn [In]. intros [Hi|[Hi|[]]]; [tauto|subst; tauto].
+      + apply IH; tauto.
   Qed.
 End AssocLemmas.
